@@ -216,6 +216,9 @@ def run(ctx):
         n = 240 if ctx.quick() else 2400
         sc = [srv.gen_stream_case(r, 'tcp' if r.random() < 0.65 else 'rtu', auth=(srv.gen_auth(r) if r.random() < 0.1 else None)) for _ in range(n)]
         res = srv.stream_pass(ctx, sc, 'replies', 'correspondence:byte-stream-delivery:reply-bytes', 'server.byte-stream')
+        # a request for a unit whose handler lock is held by another thread is answered after the release, never with an error
+        hc = [srv.gen_hold_case(r, False) for _ in range(12 if ctx.quick() else 60)]
+        srv.stream_pass(ctx, hc, 'replies', 'request-while-the-handler-lock-is-held:reply-bytes', 'server.request-while-locked')
         big = sum(1 for _, s in sc if sum(len(x) // 2 for x in s if not x.startswith('@')) > 260)
         cmds = sum(1 for _, s in sc if any(x.startswith('@') for x in s))
         ctx.oblige('byte-stream-cases-reach-expected-classes', big >= 30 and cmds >= 30, f'{big} streams above 260 bytes, {cmds} with commands between chunks')
